@@ -638,7 +638,7 @@ func c05Case(c *mon.Case, state, retry, concurrent bool) {
 	var genSeq atomic.Int64
 	var rootCancelled atomic.Bool
 	var lastGenRC atomic.Int64 // RoutineContainer: the single setter's last generation
-	var ctxMu sync.Mutex        // the context changer is one goroutine; the mutex only publishes its fields
+	var ctxMu sync.Mutex       // the context changer is one goroutine; the mutex only publishes its fields
 	nOps := 10 + r.IntN(40)
 	ctxOps := func(actor string, rr interface{ IntN(int) int }, n int) {
 		for i := 0; i < n; i++ {
